@@ -346,7 +346,7 @@ def split_traces(path):
     return traces, order
 
 
-def validate_traces(module, cfg, ndjson, workers=None, timeout=900, dfs=False, locate=True, max_locate=5):
+def validate_traces(module, cfg, ndjson, workers=None, timeout=900, dfs=False, locate=True, max_locate=80):
     """Validates every trace of the NDJSON file against spec/<module>.tla (one initial state per trace).
     Returns dict(accepted=set, rejected={t: info}, result=TLCResult).  A trace is accepted iff TLC printed
     <<"ACCEPT", t>>.  For rejected traces the position of the first event that no action explains is located by
@@ -363,23 +363,34 @@ def validate_traces(module, cfg, ndjson, workers=None, timeout=900, dfs=False, l
         acc.add(int(m.group(1)))
     inv = r.violation
     rejected = {}
-    for t in order:
-        if t in acc:
-            continue
+    todo = [t for t in order if t not in acc]
+
+    def locate_one(t):
         info = dict(trace=t, events=len(traces[t]), invariant=None, at=None, event=None)
-        if locate and len(rejected) < max_locate:
-            rr = run_tlc(module, cfg, extra_files={'trace.ndjson': ''.join(traces[t])}, workers=1, timeout=300, dfs=dfs)
-            if ('<<"ACCEPT", %d>>' % t) in rr.out and rr.violation is None:
-                # accepted in isolation: the batch run was cut short by an invariant violation in another trace
-                acc.add(t)
-                continue
-            info['invariant'] = rr.violation
-            k = max(rr.depth, 1)   # states on the longest path = explained events + 1 (hdr consumed by Init)
-            info['at'] = k + 1     # 1-based index of the first unexplained line of this trace
-            if k < len(traces[t]):
-                info['event'] = json.loads(traces[t][k])
-            info['prefix_tail'] = [json.loads(x) for x in traces[t][max(0, k - 6):k]]
-        rejected[t] = info
+        rr = run_tlc(module, cfg, extra_files={'trace.ndjson': ''.join(traces[t])}, workers=1, timeout=300, dfs=dfs, heap='1g')
+        if ('<<"ACCEPT", %d>>' % t) in rr.out and rr.violation is None:
+            return t, None      # accepted in isolation: the batch run was cut short by an invariant violation in another trace
+        info['invariant'] = rr.violation
+        k = max(rr.depth, 1)   # states on the longest path = explained events + 1 (hdr consumed by Init)
+        info['at'] = k + 1     # 1-based index of the first unexplained line of this trace
+        if k < len(traces[t]):
+            info['event'] = json.loads(traces[t][k])
+        info['prefix_tail'] = [json.loads(x) for x in traces[t][max(0, k - 6):k]]
+        return t, info
+
+    if locate and todo:
+        from concurrent.futures import ThreadPoolExecutor
+        with ThreadPoolExecutor(max_workers=8) as ex:
+            for t, info in ex.map(locate_one, todo[:max_locate]):
+                if info is None:
+                    acc.add(t)
+                else:
+                    rejected[t] = info
+        for t in todo[max_locate:]:
+            rejected[t] = dict(trace=t, events=len(traces[t]), invariant=None, at=None, event=None)
+    else:
+        for t in todo:
+            rejected[t] = dict(trace=t, events=len(traces[t]), invariant=None, at=None, event=None)
     # an invariant violation stops TLC: traces after it were not examined in the batch; re-run them
     if inv is not None and len(rejected) > max_locate:
         pass
